@@ -1,5 +1,7 @@
 (* C10 — stepping commands execute exactly what they promise. *)
-From Lace Require Import Word Machine Isa Vm Asm Dbg DbgProofs.
+From Coq Require Import List NArith Bool.
+From Lace Require Import Word Machine Isa Vm Asm Dbg DbgProofs DbgRef.
+Import ListNotations.
 Open Scope N_scope.
 
 (** What each resuming command arms (when not parked on HALT): `step into N` a count of N-1 more
@@ -85,3 +87,106 @@ Theorem C10_pause : forall env script d st,
              next_action env script d st = wait_loop env script d' st 0.
 Proof. exact pause_forces_wait. Qed.
 Print Assumptions C10_pause.
+
+(* ------------------------------------------------------------------ *)
+(** * The whole statement against a reference (DbgRef.v)
+
+    [ref_cmd] / [ref_at] are the SPEC: the plain machine ([vm_step]) driven by a mode (how much is
+    still to run) and the pause conditions (breakpoint at PC, HALT at PC, PC outside user space);
+    nothing of the debugger's record, messages, script or counters.  For EVERY count, machine state
+    and breakpoint set the debugger does exactly what the reference does: *)
+
+(** a resuming command read by a waiting debugger at a state in user space, not on HALT (a
+    breakpoint at PC does not hold the first instruction back): the command and one instruction
+    in the first iteration, then one instruction per iteration with no command read, until the
+    debugger is paused at exactly the reference's state after exactly the reference's number of
+    instructions — or the machine stops exactly where the reference's does; *)
+Theorem C10_reference : forall env fuel c rest d st m,
+  d_status d = WaitForAction -> mode_of_cmd (e_feat env) c st = Some m -> at_halt st = false -> runnable st ->
+  match ref_cmd (e_feat env) (d_bps d) fuel c st with
+  | PEPaused st' k =>
+      exists d1 st1 d', tick env (c :: rest) d st = TNext rest d1 st1 1 1 /\
+        iter_tick env (k - 1) rest d1 st1 = Some (d', st') /\ d_bps d' = d_bps d /\
+        paused_at env rest d' st' /\ (1 <= k)%nat
+  | PEStopped kind code s k =>
+      (k = 1%nat /\ exists d', tick env (c :: rest) d st = TStop kind code s d' 1 1) \/
+      (exists d1 st1 d' st2, tick env (c :: rest) d st = TNext rest d1 st1 1 1 /\
+         iter_tick env (k - 2) rest d1 st1 = Some (d', st2) /\ d_bps d' = d_bps d /\
+         stops_with env rest d' st2 kind code s /\ (2 <= k)%nat)
+  | PEFuel => True
+  end.
+Proof. exact ref_cmd_refined. Qed.
+Print Assumptions C10_reference.
+
+(** the same from any armed status at any state (the iterations after the first); *)
+Theorem C10_reference_at : forall env script fuel m st k d,
+  d_status d = status_of m ->
+  match ref_at (e_feat env) (d_bps d) fuel m st k with
+  | PEPaused st' k' =>
+      exists d', iter_tick env (k' - k) script d st = Some (d', st') /\ d_bps d' = d_bps d /\
+                 paused_at env script d' st' /\ (k <= k')%nat
+  | PEStopped kind code s k' =>
+      exists d' st1, iter_tick env (k' - S k) script d st = Some (d', st1) /\ d_bps d' = d_bps d /\
+                     stops_with env script d' st1 kind code s /\ (S k <= k')%nat
+  | PEFuel => True
+  end.
+Proof. exact ref_at_refined. Qed.
+Print Assumptions C10_reference_at.
+
+(** outside user space a resuming command executes nothing and the debugger is paused again. *)
+Theorem C10_outside : forall env c rest d st m,
+  d_status d = WaitForAction -> mode_of_cmd (e_feat env) c st = Some m -> at_halt st = false -> oob st = true ->
+  exists d1, tick env (c :: rest) d st = TNext rest d1 st 0 1 /\ d_bps d1 = d_bps d /\ paused_at env rest d1 st.
+Proof. exact resume_outside. Qed.
+Print Assumptions C10_outside.
+
+(** What the reference says, declaratively.  Wherever it pauses it got there by plain-machine
+    instructions from states at which no pause condition held ... *)
+Theorem C10_least_path : forall feat bps fuel m st k st' k', ref_at feat bps fuel m st k = PEPaused st' k' ->
+  (k <= k')%nat /\ steps feat (k' - k) st = Some st' /\
+  (forall i, (i < k' - k)%nat -> exists si, steps feat i st = Some si /\ pause_cond bps si = false).
+Proof. exact ref_at_path. Qed.
+Print Assumptions C10_least_path.
+
+(** ... `step into` with n more to go: n+1 instructions, fewer only at a pause condition;
+    `continue`: only at a pause condition; `step` over a call: at the first state whose PC is the
+    return address, or a pause condition; `step out`: right after the first RET/RETS executed, or
+    at a pause condition. *)
+Theorem C10_least_into : forall feat bps fuel n st k st' k', ref_at feat bps fuel (MInto n) st k = PEPaused st' k' ->
+  (k' - k <= S n)%nat /\ ((k' - k = S n)%nat \/ pause_cond bps st' = true).
+Proof. exact ref_at_into. Qed.
+Print Assumptions C10_least_into.
+
+Theorem C10_least_continue : forall feat bps fuel st k st' k', ref_at feat bps fuel MCont st k = PEPaused st' k' ->
+  pause_cond bps st' = true.
+Proof. exact ref_at_cont. Qed.
+Print Assumptions C10_least_continue.
+
+Theorem C10_least_over : forall feat bps ra fuel st k st' k', ref_at feat bps fuel (MOver ra) st k = PEPaused st' k' ->
+  (s_pc st' = ra \/ pause_cond bps st' = true) /\
+  (forall i, (i < k' - k)%nat -> exists si, steps feat i st = Some si /\ s_pc si <> ra).
+Proof. exact ref_at_over. Qed.
+Print Assumptions C10_least_over.
+
+Theorem C10_least_out : forall feat bps fuel st k st' k', ref_at feat bps fuel MOut st k = PEPaused st' k' ->
+  (pause_cond bps st' = true \/
+   exists j sj, (k' - k = S j)%nat /\ steps feat j st = Some sj /\ at_return sj = true) /\
+  (forall i, (S i < k' - k)%nat -> exists si, steps feat i st = Some si /\ at_return si = false).
+Proof. exact ref_at_out. Qed.
+Print Assumptions C10_least_out.
+
+(** Non-vacuity: on `add r0 r0 #1` x3, `halt`: `step into 5` pauses on the HALT after 3
+    instructions, `step into 2` after 2, `continue` with a breakpoint at x3002 after 2, `step` after
+    1, `step out` without the stack feature does nothing. *)
+Example C10_reference_nonvacuous :
+  match from_raw [12288; 4129; 4129; 4129; 61477] [] with
+  | Loaded st =>
+      let show p := match p with PEPaused s k => Some (k, s_pc s, R s 0) | _ => None end in
+      show (ref_cmd false [] 10 (CStepInto 5) st) = Some (3%nat, 12291, 3) /\
+      show (ref_cmd false [] 10 (CStepInto 2) st) = Some (2%nat, 12290, 2) /\
+      show (ref_cmd false [(12290, false)] 10 CContinue st) = Some (2%nat, 12290, 2) /\
+      show (ref_cmd false [] 10 CStepOver st) = Some (1%nat, 12289, 1) /\
+      show (ref_cmd false [] 10 CStepOut st) = Some (0%nat, 12288, 0)
+  | _ => False
+  end.
+Proof. vm_compute. repeat split. Qed.
